@@ -39,6 +39,10 @@ def battery(conts):
         for i in (0, 1, 2, 7):
             ops.append({"op": "gindex", "tag": t, "index": i})
         ops.append({"op": "gtag", "tag": t, "gtag": "79", "gval": "y"})
+        if t in ("78", "2"):
+            ops.append({"op": "gtag", "tag": t, "gtag": "80", "gval": "q"})
+            ops.append({"op": "gtag", "tag": t, "gtag": "80", "gval": "nope"})
+            ops.append({"op": "gtag", "tag": t, "gtag": "81", "gval": "q"})
     ops.append({"op": "pickle"})
     ops.append({"op": "eqc", "other": "SELF"})
     ops.append({"op": "eqc", "other": [{"tag": "1", "k": "f", "val": "a|2=b", "items": []}]})
@@ -164,6 +168,14 @@ def muts(rng=None):
             ops.append({"op": "add_group", "tag": t, "sp": "int", "item": item("y"), "index": i})
     ops.append({"op": "set_group", "tag": "78", "sp": "int", "items": [item("x"), item("y")]})
     ops.append({"op": "set_group", "tag": "2", "sp": "enum", "items": [item("x")]})
+    # heterogeneous items: the searched member is missing from an earlier item, present in a later one (and vice versa)
+    i80 = [{"tag": "80", "k": "f", "val": "q", "items": []}]
+    both = [{"tag": "79", "k": "f", "val": "y", "items": []}, {"tag": "80", "k": "f", "val": "q", "items": []}]
+    ops.append({"op": "set_group", "tag": "78", "sp": "int", "items": [item("x"), i80, item("y")]})
+    ops.append({"op": "set_group", "tag": "78", "sp": "int", "items": [i80, both]})
+    ops.append({"op": "set_group", "tag": "78", "sp": "int", "items": [item("y"), i80]})
+    ops.append({"op": "add_group", "tag": "78", "sp": "int", "item": i80, "index": 0})
+    ops.append({"op": "add_group", "tag": "78", "sp": "int", "item": i80, "index": -1})
     return ops
 
 
@@ -183,11 +195,12 @@ def random_trace(rng, tid):
         elif x < 0.6:
             ops.append({"op": "add_group", "tag": t, "sp": "int", "item": item(rng.choice(vals[:2])), "index": rng.choice([-1, 0, 1, 3])})
         elif x < 0.65:
-            ops.append({"op": "set_group", "tag": t, "sp": "str", "items": [item("x")] * rng.randint(1, 3)})
+            ops.append({"op": "set_group", "tag": t, "sp": "str", "items": [rng.choice([item("x"), item("y"), [{"tag": "80", "k": "f", "val": "q", "items": []}]]) for _ in range(rng.randint(1, 3))]})
         elif x < 0.8:
             ops.append({"op": "get", "tag": t, "sp": "int", "dflt": rng.choice(["none", "d"])})
         elif x < 0.9:
-            ops.append(rng.choice([{"op": "glist", "tag": t}, {"op": "gindex", "tag": t, "index": rng.randint(0, 3)}, {"op": "contains", "tag": t, "sp": "str"}]))
+            ops.append(rng.choice([{"op": "glist", "tag": t}, {"op": "gindex", "tag": t, "index": rng.randint(0, 3)}, {"op": "contains", "tag": t, "sp": "str"},
+                               {"op": "gtag", "tag": t, "gtag": rng.choice(["79", "80"]), "gval": rng.choice(["x", "y", "q"])}]))
         else:
             ops.append(rng.choice([{"op": "pickle"}, {"op": "eqc", "other": "SELF"}, {"op": "eqd", "pairs": "SELF+FRAMING"},
                                    {"op": "eqd", "pairs": "SELF+FRAMING", "keys": "int"}]))
@@ -207,7 +220,12 @@ def run(ctx):
     for si, p in enumerate(paths):
         traces.append({"id": "s%d" % si, "ops": list(p) + battery(None)})
         for mi, m in enumerate(mm):
-            traces.append({"id": "s%d.m%d" % (si, mi), "ops": list(p) + [m] + battery(None)[-9:] + [{"op": "glist", "tag": "78"}, {"op": "get", "tag": "1", "sp": "int", "dflt": "none"}]})
+            greads = []
+            if m["op"] in ("add_group", "set_group"):
+                gt = m["tag"]
+                greads = [{"op": "gindex", "tag": gt, "index": i} for i in (0, 1, 2, 3)] + \
+                         [{"op": "gtag", "tag": gt, "gtag": a, "gval": b} for a, b in (("79", "y"), ("79", "x"), ("80", "q"), ("80", "nope"), ("81", "q"))]
+            traces.append({"id": "s%d.m%d" % (si, mi), "ops": list(p) + [m] + battery(None)[-9:] + [{"op": "glist", "tag": "78"}, {"op": "get", "tag": "1", "sp": "int", "dflt": "none"}] + greads})
     rng = random.Random(ctx.seed * 37 + 18)
     nr = 600 if q else 10000
     traces += [random_trace(rng, "r%d" % i) for i in range(nr)]
